@@ -3,6 +3,7 @@
 // same canonical format, plus the raw arrays (for the certificate), plus its
 // own all-pairs scan verdict.
 #include <cstdio>
+#include <limits>
 #include <iostream>
 #include <sstream>
 #include <string>
@@ -11,6 +12,15 @@
 #include "collider.h"
 #undef private
 using namespace manifold;
+
+// coordinates at or beyond 2^59 in magnitude stand for +-infinity (the model keeps them as huge
+// integers: the embedding is order preserving, and the closed-interval test only compares)
+static double Ext(long long v) {
+  const long long S = 1LL << 59;
+  if (v >= S) return std::numeric_limits<double>::infinity();
+  if (v <= -S) return -std::numeric_limits<double>::infinity();
+  return (double)v;
+}
 
 int main() {
   std::string line;
@@ -43,8 +53,8 @@ int main() {
       if (kind == 0) {
         long long a[6];
         for (auto& x : a) in >> x;
-        qb[q].min = vec3(a[0], a[1], a[2]);
-        qb[q].max = vec3(a[3], a[4], a[5]);
+        qb[q].min = vec3(Ext(a[0]), Ext(a[1]), Ext(a[2]));
+        qb[q].max = vec3(Ext(a[3]), Ext(a[4]), Ext(a[5]));
       } else {
         long long x, y;
         in >> x >> y;
